@@ -330,6 +330,17 @@ pub fn probe_indices(n: usize, w: usize, rng: &mut Rng) -> Vec<usize> {
         }
         b *= 2;
     }
+    // boundaries of an even split of the pixels over 2..=16 workers
+    for workers in [2usize, 3, 4, 6, 8, 12, 16] {
+        for k in 1..workers {
+            for d in [-1i64, 0] {
+                let i = (k * (n / workers)) as i64 + d;
+                if i >= 0 && (i as usize) < n {
+                    s.insert(i as usize);
+                }
+            }
+        }
+    }
     for r in [1usize, 2, w / 2] {
         for d in [-1i64, 0] {
             let i = (r * w) as i64 + d;
@@ -338,9 +349,13 @@ pub fn probe_indices(n: usize, w: usize, rng: &mut Rng) -> Vec<usize> {
             }
         }
     }
-    for _ in 0..120 {
+    for _ in 0..60 {
         s.insert(rng.below(n as u64) as usize);
     }
     s.into_iter().collect()
 }
-pub const BIG: (usize, usize) = (311, 227);
+/// sizes of the LARGE probe images: above typical "parallelise / vectorise from here on" thresholds (>= 512*512 pixels),
+/// with pixel counts that are not multiples of 2, 4, 8 or 16
+pub fn big(k: usize) -> (usize, usize) {
+    [(521, 509), (311, 227), (513, 513), (1031, 257)][k % 4]
+}
